@@ -287,9 +287,9 @@ func transparentWrapper(h *ssa.Function, pats ...string) bool {
 			return false
 		}
 		var src *ssa.Call
-		for i, res := range ret.Results {
+		for i := range ret.Results {
 			var c *ssa.Call
-			switch x := res.(type) {
+			switch x := retResult(ret, i).(type) {
 			case *ssa.Extract:
 				if cc, ok := x.Tuple.(*ssa.Call); ok && x.Index == i {
 					c = cc
